@@ -199,6 +199,16 @@ def r2_classify_once(ctx):
     pc = flow.path_counts(b, single, outcomes, stop=None)
     # restrict to paths inside the single region: the region ends at function exits
     R.paths_enumerated += 1
+    # a single message that is neither a call nor a notification is answered from prepare_error's (id, code) - the only
+    # place that recovers the id; no shortcut builds a reply with a fixed id/code inside the single-message region
+    tr = ctx.tracer(follow_callers=False, follow_fields=False)
+    for e in b.calls_to(CTOR):
+        if single is None or not b.dominates(single, e.bb) or (batch is not None and b.dominates(batch, e.bb)):
+            continue
+        for ai, what in ((0, "id"), (1, "error")):
+            lv = tr.origins(b, e.args[ai])
+            okp = any(l.kind == "call" and re.search(r"prepare_error$", l.detail["callee"] or "") for l in lv)
+            R.check(okp, "C01.R2", "single:error-%s-from-prepare_error" % what, "the %s of the error reply to a single message comes from prepare_error" % what, "handle_rpc_call answers a single message with an error whose %s is %s, not prepare_error's: a message whose id is recoverable (or that is a notification) gets a fixed reply (e.g. -32700 / null) on this shortcut" % (what, [flow.leaf_str(l)[:60] for l in lv]), where(e))
     R.check(pc == (1, 1), "C01.R2", "single:exactly-one-outcome", "every path of the single-message region produces exactly one of call / notification / error reply", "single-message paths produce %s outcomes (expected exactly 1)" % (pc,), "%s:%d" % (b.file, b.lo))
     # Ok(request) -> call(request) ; Ok(notif) -> notification(notif)
     tr = ctx.tracer(follow_callers=False, follow_fields=False)
@@ -545,6 +555,24 @@ def _borrowed(modname, fname):
 BORROWED = [_borrowed("c16", n) for n in ("r1_only_invalid_params", "r2_poison_on_error", "r3_exhaustion_table", "r4_absent_params", "rown_into_owned", "rnext_reads_T", "rone_is_one_array_parse")] + [_borrowed("c15", n) for n in ("r1_code_tables", "r2_serializer")]
 
 
+def r13_subscription_kind_is_sent_by_its_creator(ctx):
+    """the WebSocket task does not write `Subscription`-kind responses itself (the subscription machinery already wrote
+    them to the connection): so such a response may only be created where it is also written - in
+    PendingSubscriptionSink::accept / reject. Created anywhere else (a fallback arm answering with subscription_error) the
+    call gets no reply at all."""
+    F, R = ctx.F, ctx.R
+    n = 0
+    for c in F.all_calls(r"server::(method_response::)?MethodResponse::(subscription_error|subscription_response)$"):
+        b = c.body
+        if b.crate not in (CORE, SERVER) or is_test_body(b):
+            continue
+        n += 1
+        ok_site = bool(re.search(r"^jsonrpsee_core::server::subscription::PendingSubscriptionSink::(accept|reject)(::\{closure#0\})?$", b.path))
+        writes = bool(b.calls_to(r"MethodSink::send$"))
+        R.check(ok_site and writes, "C01.R13", "subscription-kind:%s" % fkey(b), "a Subscription-kind response is created where it is written to the connection", "%s creates a Subscription-kind response (%s) but is not one of the places that also write it to the connection: the WebSocket task skips responses of that kind, so the call is never answered" % (short(b.path), (c.name() or "").split("::")[-1]), where(c))
+    R.floor("C01.R13", n, 2, "Subscription-kind response constructions")
+
+
 DESER_CTOR = r"^serde_json::Deserializer::<.*>::(from_slice|from_str|from_reader|new)$|^serde_json::de::Deserializer::<.*>::(from_slice|from_str|from_reader|new)$"
 DESER_END = r"^serde_json::(de::)?Deserializer::<.*>::end$"
 WRAPPERS = r"^jsonrpsee_server::utils::deserialize_with_ext::(call|notif)::(from_slice|from_str)$"
@@ -619,7 +647,7 @@ def control_hand_driven(ctx):
 CONTROLS = [control_hand_driven]
 
 
-RULES = [r1_id_echo, r1b_handler_args, r2_classify_once, r3_ws_reply_once, r4_invocation_authority, r5_failure_classes, r6_transport_agreement, r7_whole_message, r8_classifiers_are_plain, r9_params_whitespace, r10_not_found_iff_unbound, r11_no_borrowed_wire_strings, r12_entry_points_agree] + BORROWED
+RULES = [r1_id_echo, r1b_handler_args, r2_classify_once, r3_ws_reply_once, r4_invocation_authority, r5_failure_classes, r6_transport_agreement, r7_whole_message, r8_classifiers_are_plain, r9_params_whitespace, r10_not_found_iff_unbound, r11_no_borrowed_wire_strings, r12_entry_points_agree, r13_subscription_kind_is_sent_by_its_creator] + BORROWED
 
 LEVEL_TEXT = (
     "Structural necessary conditions of the request/reply contract decided from the type-checked program for every "
